@@ -1428,7 +1428,7 @@ pub fn step(cfg: &Cfg, sut: &mut Sut, m: &mut Model, pre: &Snapshot, op: Op, has
 
     // ---- C12 / C13 for a whole maintenance pass over queued ops (no maintenance after
     // every op): the pass is predicted from the queues it found
-    if cfg.lru && !u && !cfg.autosync && matches!(op, Op::Sync) && !cfg.has_expiry() && pre.valid_after.is_none() && pre.read_ops.len() < 64 && pre.write_ops.len() < 64 {
+    if !u && !cfg.autosync && matches!(op, Op::Sync) && !cfg.has_expiry() && pre.valid_after.is_none() && pre.read_ops.len() < 64 && pre.write_ops.len() < 64 {
         let est_post: Vec<u8> = (0..=cfg.nkeys).map(|k| sut.estimate(k)).collect();
         let (wq, wres, wec, wws, contest) = predict_pass(cfg, pre, &est_post);
         let got_q: Vec<u64> = post.probation.nodes.iter().map(|n| n.key).collect();
